@@ -4,12 +4,5 @@ package vm
 
 // Accessors for the verification harness.
 
-// VerifClearRuntimeError forgets the last runtime error so that a new one can be told apart.
-func (v *VM) VerifClearRuntimeError() {
-	v.runtimeErrorMu.Lock()
-	v.runtimeError = ""
-	v.runtimeErrorMu.Unlock()
-}
-
 // VerifMemoLen is the number of entries in the strptime memo.
 func (v *VM) VerifMemoLen() int { return v.timeMemos.Len() }
